@@ -170,17 +170,21 @@ func genIcept(r *rng, n int, tier string) []string {
 			// nesting-rich programs with selective probes only: consecutive context
 			// queries under different stacks of equal depth
 			_, txt, _, _ := c16Case(r.next() % (1 << 40))
-			items = append(items, fmt.Sprintf("si:s%d", 20+r.intn(7)))
+			if r.chance(1, 2) {
+				items = append(items, fmt.Sprintf("si:b,s%d", 20+r.intn(7)))
+			} else {
+				items = append(items, fmt.Sprintf("si:s%d", 20+r.intn(7)))
+			}
 			if r.chance(1, 2) {
 				items = append(items, fmt.Sprintf("ei:s%d", 20+r.intn(7)))
 			}
 			out = append(out, strings.Join(items, ";")+" "+hx(txt))
 			continue
 		}
-		if si := icList(r, []string{"p", "q", "q", "s"}, true); si != "" {
+		if si := icList(r, []string{"p", "q", "q", "s", "b"}, true); si != "" {
 			items = append(items, "si:"+si)
 		}
-		if ei := icList(r, []string{"p", "q", "q", "r", "s"}, true); ei != "" {
+		if ei := icList(r, []string{"p", "q", "q", "r", "s", "b"}, true); ei != "" {
 			items = append(items, "ei:"+ei)
 		}
 		if ti := icList(r, []string{"p", "q"}, true); ti != "" {
